@@ -11,41 +11,9 @@
 (***************************************************************************)
 EXTENDS RegexSem
 
-MaxOf(S) == CHOOSE x \in S : \A y \in S : y <= x
-MinOf(S) == CHOOSE x \in S : \A y \in S : x <= y
-
-\* non-empty texts starting at e that the lookahead pattern matches
-LookEnds(p, w, e) == { f \in Ends(p.la.re, w, e) : f > e }
-
-\* the lookahead condition of pattern p for a token ending at e
-LookOK(p, w, e) ==
-  CASE p.la.kind = "none" -> TRUE
-    [] p.la.kind = "pos"  -> LookEnds(p, w, e) # {}
-    [] p.la.kind = "neg"  -> LookEnds(p, w, e) = {}
-
-\* candidates: <<pattern index, end>> with a non-empty match and satisfied lookahead
-Cand(m, w, i) ==
-  { c \in UNION { { <<p, e>> : e \in { e \in Ends(m.pats[p].re, w, i) : e > i } } : p \in DOMAIN m.pats } :
-      LookOK(m.pats[c[1]], w, c[2]) }
-
-\* extent of a candidate, as the position where its trailing context ends
-Ext(m, w, c) ==
-  IF m.pats[c[1]].la.kind = "pos" THEN MaxOf(LookEnds(m.pats[c[1]], w, c[2])) ELSE c[2]
-
-\* the admissible tokens: maximal extent, then the pattern listed first.  A SET: two
-\* candidates of the same pattern with equal extent are both admissible (C05 only orders
-\* candidates of different patterns).  Without lookaheads it is a singleton.
-Best(m, w, i) ==
-  LET C == Cand(m, w, i) IN
-  IF C = {} THEN {}
-  ELSE LET mx == MaxOf({ Ext(m, w, c) : c \in C })
-           T  == { c \in C : Ext(m, w, c) = mx }
-           pp == MinOf({ c[1] : c \in T })
-       IN  { c \in T : c[1] = pp }
-
-\* mode transition on a token type (first entry wins; valid configurations have at most one)
-HasTrans(m, tt) == \E k \in DOMAIN m.trans : m.trans[k][1] = tt
-TransTarget(m, tt) == m.trans[MinOf({ k \in DOMAIN m.trans : m.trans[k][1] = tt })][2]
+\* MaxOf, MinOf, LookEnds, LookOK, Cand, Ext, Best, HasTrans, TransTarget: module TokenizerCore,
+\* instantiated with RegexSem's Ends
+INSTANCE TokenizerCore
 
 \* first position >= i with a candidate together with its admissible tokens: <<position, Best>>;
 \* <<Len(w)+1, {}>> if there is none (Best is empty exactly when there is no candidate)
